@@ -1972,3 +1972,13 @@ mut(
     'choices=("CRUD", "CR", "C", "R", "U", "D", "CU", "CD", "CRD"),',
     mention=("RD",),
 )
+mut2(
+    "c16-handlers-grouped-without-sorting-again",
+    "C16",
+    "C16.crud",
+    [
+        {"file": "cdd/compound/openapi/gen_openapi.py", "old": "                    sorted(\n                        map(\n                            lambda route: (\n", "new": "                    list(\n                        map(\n                            lambda route: (\n"},
+        {"file": "cdd/compound/openapi/gen_openapi.py", "old": "                        key=itemgetter(0),\n                    ),\n                    key=itemgetter(0),\n", "new": "                    ),\n                    key=itemgetter(0),\n"},
+    ],
+    mention=("neighbours",),
+)
